@@ -154,6 +154,7 @@ def run(rep: core.Report):
     _r10e(rep)
     _r10f(rep)
     _r10g(rep)
+    _r10h(rep)
 
 
 # ---------------------------------------------------------------------------
@@ -493,6 +494,93 @@ def _r10g(rep):
     rep.instance("R10g", CF, "phpy_get_thermal_properties", "the scratch array is zeroed over its whole extent before the accumulation (no uninitialised cell in the closed form)", bool(zero) and not any("uninitialised" in str(v) for _, _, v in st.cells.get("thermal_props", [])), "a cell of the scratch array enters the sum without having been zeroed", line=tu.line(fn))
 
 
+
+def _r10h(rep):
+    """Constructor options that change which frequencies enter the sums take effect on every path."""
+    rep.rule("R10h", "options on every path: with pretend_real the stored frequencies are absolute values whether or not band_indices is given, and with band_indices they are the selected bands whether or not pretend_real is given (path enumeration of ThermalPropertiesBase.__init__ over the two options; the value stored in self._frequencies is followed through locals and re-assignments)", 4)
+    init = core.find_def(PY, "ThermalPropertiesBase.__init__")
+    params = {a.arg for a in init.args.args}
+    if not {"pretend_real", "band_indices", "mesh"} <= params:
+        raise AnalysisError(f"{PY}::ThermalPropertiesBase.__init__: parameters pretend_real / band_indices / mesh vanished")
+
+    def truth(test, assume):
+        """True / False / None for a test under the assumed option values"""
+        t = core.src(test).replace(" ", "")
+        if t == "pretend_real":
+            return assume["pretend_real"]
+        if t == "notpretend_real":
+            return not assume["pretend_real"]
+        if t in ("band_indicesisnotNone",):
+            return assume["band_indices"]
+        if t in ("band_indicesisNone",):
+            return not assume["band_indices"]
+        return None
+
+    def tags(e, env):
+        out = set()
+        for x in ast.walk(e):
+            if isinstance(x, ast.Name) and x.id in env:
+                out |= env[x.id]
+            elif isinstance(x, ast.Attribute):
+                key = core.src(x)
+                if key in env:
+                    out |= env[key]
+                elif key == "mesh.frequencies":
+                    out.add("freq")
+            elif isinstance(x, ast.Name) and x.id == "band_indices":
+                out.add("bi")
+        if any(isinstance(x, ast.Call) and core.src(x.func) in ("abs", "np.abs", "np.absolute", "np.fabs") and "freq" in tags_shallow(x, env) for x in ast.walk(e)):
+            out.add("abs")
+        if any(isinstance(x, ast.Subscript) and "bi" in tags_shallow(x.slice, env) and "freq" in tags_shallow(x.value, env) for x in ast.walk(e)):
+            out.add("select")
+        return out
+
+    def tags_shallow(e, env):
+        out = set()
+        for x in ast.walk(e):
+            if isinstance(x, ast.Name) and x.id in env:
+                out |= env[x.id]
+            elif isinstance(x, ast.Name) and x.id == "band_indices":
+                out.add("bi")
+            elif isinstance(x, ast.Attribute):
+                key = core.src(x)
+                if key in env:
+                    out |= env[key]
+                elif key == "mesh.frequencies":
+                    out.add("freq")
+        return out
+
+    def run_block(stmts, env, assume):
+        envs = [env]
+        for st in stmts:
+            nxt = []
+            for e_ in envs:
+                if isinstance(st, ast.Assign) and len(st.targets) == 1 and isinstance(st.targets[0], (ast.Name, ast.Attribute)):
+                    e2 = dict(e_)
+                    e2[core.src(st.targets[0])] = tags(st.value, e_)
+                    nxt.append(e2)
+                elif isinstance(st, ast.If):
+                    tv = truth(st.test, assume)
+                    if tv is not False:
+                        nxt += run_block(st.body, dict(e_), assume)
+                    if tv is not True:
+                        nxt += run_block(st.orelse, dict(e_), assume)
+                else:
+                    nxt.append(e_)
+            envs = nxt
+        return envs
+
+    for pr in (True, False):
+        for bi in (True, False):
+            finals = run_block(init.body, {}, {"pretend_real": pr, "band_indices": bi})
+            got = [f.get("self._frequencies", set()) for f in finals]
+            if not got or any("freq" not in g for g in got):
+                raise AnalysisError(f"{PY}::ThermalPropertiesBase.__init__: self._frequencies is not derived from mesh.frequencies on some path")
+            ok = all(("abs" in g) == pr or (not pr and "abs" not in g) for g in got) and all(("abs" in g) for g in got if pr) and all(("select" in g) == bi for g in got)
+            rep.instance("R10h", PY, "ThermalPropertiesBase.__init__", f"pretend_real={pr}, band_indices {'given' if bi else 'None'}: stored frequencies carry {sorted(set().union(*got) - {'freq', 'bi'})}", ok,
+                         f"with pretend_real={pr} and band_indices {'given' if bi else 'None'} the stored frequencies are {'not ' if pr and not all('abs' in g for g in got) else ''}absolute values and {'not ' if bi and not all('select' in g for g in got) else ''}restricted to the selected bands: one option is ignored when the other is used, so imaginary modes of the selected bands drop out of F, S, C_V and the mode count", line=init.lineno)
+
+
 def _r10f(rep):
     want = {
         "run_free_energy": ("mode_F", "mode_ZPE"),
@@ -610,4 +698,6 @@ def selftest():
     b("python evaluator uses mode_F at T = 0", PY, "        if t > 0:\n            free_energy = self._calculate_thermal_property(mode_F, t)", "        if t >= 0:\n            free_energy = self._calculate_thermal_property(mode_F, t)", "R10f", "run_free_energy")
     n("heat capacity with x*x", PY, "        return Kb * x**2 * expVal / (1.0 - expVal) ** 2", "        return Kb * x * x * expVal / ((1.0 - expVal) * (1.0 - expVal))")
     n("zero-point sum vectorised with the cutoff mask", PY, "            for freqs, w in zip(self._frequencies, self._weights):\n                positive_fs = np.extract(freqs > self._cutoff_frequency, freqs)\n                zp_energy += np.sum(positive_fs) * w / 2\n", "            masked = np.where(self._frequencies > self._cutoff_frequency, self._frequencies, 0.0)\n            zp_energy = np.dot(self._weights, masked.sum(axis=1)) / 2\n")
+    b("pretend_real ignored when band indices are given", PY, "            self._frequencies = mesh.frequencies\n            self._eigenvectors = mesh.eigenvectors\n\n        if pretend_real:\n            self._frequencies = abs(self._frequencies)\n", "            self._frequencies = abs(mesh.frequencies) if pretend_real else mesh.frequencies\n            self._eigenvectors = mesh.eigenvectors\n\n", "R10h", "band_indices given")
+    n("pretend_real applied to a local before the branches", PY, "        if band_indices is not None:\n            bi = np.hstack(band_indices).astype(\"intc\")\n            self._band_indices = bi\n            self._frequencies = np.array(\n                mesh.frequencies[:, bi], dtype=\"double\", order=\"C\"\n            )", "        fr = mesh.frequencies\n        if pretend_real:\n            fr = np.abs(fr)\n        if band_indices is not None:\n            bi = np.hstack(band_indices).astype(\"intc\")\n            self._band_indices = bi\n            self._frequencies = np.array(\n                fr[:, bi], dtype=\"double\", order=\"C\"\n            )")
     return V
